@@ -164,7 +164,7 @@ func (sc *scenario) restorePlan(r *rand.Rand) []rfault {
 	}
 	r.Shuffle(len(all), func(i, j int) { all[i], all[j] = all[j], all[i] })
 	// one of each (part, op) first so that the region kinds are spread, then fill
-	nRaw := kit.Scale(8, 30)
+	nRaw := kit.Scale(8, 24)
 	seen := map[string]bool{}
 	var picked []ro
 	for _, x := range all {
